@@ -59,6 +59,17 @@ def check_query(run, i, ev, why):
     fres = fresh.query(k, t)
     mon.check([int(c) for _, c in fres] == counts and (sorted(map(bytes, (a for a, _ in fres))) == sorted(keys) or len(set(counts)) < len(counts)),
               "answer==answer-of-freshly-loaded-copy", fresh=H.hh_pairs(fres)[:8], **det)
+    # the loaded copy must also answer a *default-threshold* query per the specification (whatever was asked before save)
+    dres = fresh.query(10**9)
+    deff = int(float(fresh.phi) * int(fresh.n_added()))
+    dkeys = {bytes(a): int(c) for a, c in dres}
+    for key, c in dkeys.items():
+        mon.check(c == int(fresh[key]) and c >= deff, "loaded-copy:default-query-pairs-meet-the-specification", key=hx(key), count=c, stored=int(fresh[key]),
+                  default_threshold=deff, asked_before_save=[k, t], cfg=run.cfg)
+    for key in run.ghost[i]:
+        if int(fresh[key]) >= max(deff, 1):
+            mon.check(key in dkeys, "loaded-copy:default-query-contains-every-key-above-threshold", key=hx(key), stored=int(fresh[key]), default_threshold=deff,
+                      asked_before_save=[k, t], answer=H.hh_pairs(dres)[:8], cfg=run.cfg)
     ffull = fresh.query(10**9, t)
     mon.check(sorted((bytes(a), int(c)) for a, c in ffull) == sorted((bytes(a), int(c)) for a, c in full),
               "unbounded-answer==unbounded-answer-of-freshly-loaded-copy", fresh=H.hh_pairs(ffull)[:8], **det)
@@ -86,16 +97,112 @@ def hook(run, i, ev):
 
 
 def run_case(case, ctx, mon):
+    if case["type"] == "midscan":
+        return run_midscan(case, ctx, mon)
     r = H.Run(case, mon, hook, on_query)
     r.last_kind = {}
     r.saw_hit = r.saw_miss = False
     r.go()
-    mon.nontrivial(r.saw_hit and r.saw_miss and r.shared)
+    if case.get("boundary"):
+        mon.count("default_threshold_boundary_cases")
+        mon.seen("boundary_width", case["cfg"]["width"])
+    mon.nontrivial((r.saw_hit and r.saw_miss and r.shared) or bool(case.get("boundary")))
+
+
+def gen_boundary(rng, ctx):
+    """Default threshold floor(phi * n_added()) at its rounding boundary: widths whose reciprocal is inexact in binary
+    (49, 98, 103, ...) with n_added a multiple of the width, and a light key stored with exactly that count."""
+    ws = [49, 98, 103, 107, 161, 3, 7, 10] + [int(x) for x in rng.integers(2, 200, 12 if ctx.quick else 60)]
+    for w in ws:
+        for m in (1, 2, 3, int(rng.integers(4, 9))):
+            n = m * w
+            for c in sorted({int(float(1.0 / w) * n), n // w, n // w - 1}):
+                if c < 1 or n - c < 1:
+                    continue
+                yield {"type": "history", "cfg": {"kind": "hh", "width": w, "depth": 1, "max_key_len": 8}, "n": 1, "boundary": True,
+                       "events": [[0, ["add", "48454156592d31", n - c]], [0, ["add", hx(bytes(rng.integers(1, 255, 5, dtype="uint8"))), c]],
+                                  ["q", 0, 10**9, None], ["q", 0, 3, None]]}
+
+
+def run_midscan(case, ctx, mon):
+    """An add lands *inside* a query (through another handle on the same shared block, as a parallel_add worker could):
+    the add is injected from a line-trace callback while generate_candidate_set scans.  Once quiescent, the next query
+    with the same threshold must reflect the current contents."""
+    import sys
+
+    from ..common import sk, unhx
+
+    cfg = case["cfg"]
+    owner = state.make(cfg, shared_memory=True)
+    s = sk()
+    view = s.helpers.attach_shared_memory("hh", owner.args, owner.shm.name)
+    for k, v in case["history"]:
+        owner.add(unhx(k), v)
+    code = getattr(type(owner).generate_candidate_set, "__code__", None)
+    k, t = case["k"], case["t"]
+    # dry run on a twin to learn how many line events one scan produces
+    twin = state.make(cfg)
+    for kk, v in case["history"]:
+        twin.add(unhx(kk), v)
+    counter = {"n": 0, "armed": False, "at": None, "done": False}
+
+    def local(frame, event, arg):
+        if event == "line":
+            counter["n"] += 1
+            if counter["armed"] and not counter["done"] and counter["n"] >= counter["at"]:
+                counter["done"] = True
+                view.add(unhx(case["inject"][0]), case["inject"][1])
+        return local
+
+    def tracer(frame, event, arg):
+        return local if frame.f_code is code else None
+
+    sys.settrace(tracer)
+    try:
+        twin.query(k, t)
+    finally:
+        sys.settrace(None)
+    total = counter["n"]
+    if total < 4:
+        mon.count("midscan_not_injectable")
+        return
+    counter.update(n=0, armed=True, at=max(2, int(case["frac"] * total)))
+    sys.settrace(tracer)
+    try:
+        mon.api(owner.query, k, t)
+    finally:
+        sys.settrace(None)
+    mon.check(counter["done"], "harness:mid-scan-add-was-injected", total_line_events=total, at=counter["at"])
+    # quiescent now: the same question again must describe the current contents
+    res = mon.api(owner.query, k, t)
+    eff = int(float(owner.phi) * int(owner.n_added())) if t is None else int(t)
+    det = dict(k=k, threshold=t, effective_threshold=eff, answer=H.hh_pairs(res)[:8], cfg=cfg, injected=case["inject"], at_line_event=counter["at"], of=total)
+    for key, c in res:
+        mon.check(int(c) == int(owner[bytes(key)]), "after-mid-scan-add:count==hh[key]", key=hx(key), stored=int(owner[bytes(key)]), **det)
+    fresh = state.save_load(owner, "hh", False, False)
+    fres = fresh.query(k, t)
+    mon.check([int(c) for _, c in fres] == [int(c) for _, c in res], "after-mid-scan-add:answer==answer-of-freshly-loaded-copy", fresh=H.hh_pairs(fres)[:8], **det)
+    mon.count("midscan_injections")
+    del view, owner
+    mon.nontrivial(True)
+
+
+def gen_midscan(rng, ctx):
+    for _ in range(40 if ctx.quick else 400):
+        w = int(rng.integers(2, 9))
+        cfg = {"kind": "hh", "width": w, "depth": int(rng.integers(1, 4)), "max_key_len": 8}
+        keys = [bytes(rng.integers(1, 255, int(rng.integers(1, 6)), dtype="uint8")) for _ in range(6)]
+        hist = [[hx(keys[int(rng.integers(0, 6))]), int(rng.integers(1, 40))] for _ in range(int(rng.integers(3, 12)))]
+        yield {"type": "midscan", "cfg": cfg, "history": hist, "k": pick(rng, [10**9, 3]), "t": pick(rng, [None, 0, 1, 2]),
+               "inject": [hx(keys[int(rng.integers(0, 6))]), int(rng.integers(50, 2000))], "frac": float(rng.uniform(0.15, 0.95))}
 
 
 def gen_cases(ctx):
     rng = ctx.rng("cases")
-    n = 400 if ctx.quick else 10**9
+    if ctx.quick or ctx.shard % 4 == 0:
+        yield from gen_boundary(rng, ctx)
+        yield from gen_midscan(rng, ctx)
+    n = 300 if ctx.quick else 10**9
     for _ in range(n):
         yield H.gen_history_case(rng, ctx, big=0.08, n_ev=(4, 30), max_width=8, queries=True)
 
@@ -116,3 +223,4 @@ def floors(mon, ctx):
     mon.floor("queries right after a merge", mon.counters["queries_after_merge"], 20)
     mon.floor("queries right after a load", mon.counters["queries_after_load"], 10)
     mon.floor("threshold kinds", len(mon.classes["threshold_kind"]), 5)
+    mon.floor("default-threshold boundary cases", mon.counters["default_threshold_boundary_cases"], 40)
